@@ -64,12 +64,31 @@ class TypeScriptSRPAnalyzer(TypeScriptBaseAnalyzer):
         method_count = self.metrics_calculator.count_methods(class_node)
         loc = self.metrics_calculator.count_loc(class_node, source)
         has_keyword = any(keyword in class_name for keyword in config.keywords)
+        header_node = self._class_header_node(class_node)
 
         return {
             "class_name": class_name,
             "method_count": method_count,
             "loc": loc,
             "has_keyword": has_keyword,
-            "line": class_node.start_point[0] + 1,
-            "column": class_node.start_point[1],
+            "line": header_node.start_point[0] + 1,
+            "column": header_node.start_point[1],
         }
+
+    @staticmethod
+    def _class_header_node(class_node: Any) -> Any:
+        """Get the node where the class header starts (the `class` keyword, not a decorator).
+
+        Tree-sitter includes leading decorators in the class_declaration node, so its start
+        point is the first decorator line for a decorated class.
+
+        Args:
+            class_node: Class declaration tree-sitter node
+
+        Returns:
+            First non-decorator child, or the class node itself
+        """
+        for child in class_node.children:
+            if child.type != "decorator":
+                return child
+        return class_node
